@@ -20,28 +20,30 @@ EXTENDS Naturals, Sequences, FiniteSets, TLC, Json
 CONSTANTS SameFileCheck       \* TRUE = repaired code; FALSE = pinned design (truncate before looking)
 
 Ops      == {"copy", "move"}
-SrcKinds == {"file", "missing", "dir"}
+SrcKinds == {"file", "missing", "dir", "linkToFile"}     \* linkToFile: the source path is a symbolic link to the file R
 DstKinds == {"missing", "file", "same", "symlinkToSrc", "hardlinkToSrc", "dir", "parentMissing", "parentIsFile",
-             "otherFsMissing", "otherFsFile", "otherFsSymlinkToSrc", "danglingSymlink", "symlinkToOther"}
+             "otherFsMissing", "otherFsFile", "otherFsSymlinkToSrc", "danglingSymlink", "symlinkToOther",
+             "srcTarget", "symlinkToSrcTarget"}      \* with src = linkToFile: dst is R itself / another link to R
 
 None == [t |-> "none"]
 File(i) == [t |-> "file", i |-> i]
 Link(n) == [t |-> "link", to |-> n]
 Dir == [t |-> "dir"]
 Unusable == [t |-> "unusable"]
-Names == {"S", "D", "T"}           \* T: the target of a dangling / foreign symlink
+Names == {"S", "D", "T", "R"}      \* T: the target of a dangling / foreign symlink; R: the file a source link points to
 OrigSrc == "c_src"
 OrigDst == "c_dst"
 
 VARIABLES scen, ent, ino, pc, result, srcOpen, removedBeforeComplete
 vars == <<scen, ent, ino, pc, result, srcOpen, removedBeforeComplete>>
 
-DstName(s) == IF s.dst = "same" THEN "S" ELSE "D"
+DstName(s) == IF s.dst = "same" THEN "S" ELSE IF s.dst = "srcTarget" THEN "R" ELSE "D"
 DevOf(s, n) == IF n \in {"D", "T"} /\ s.dst \in {"otherFsMissing", "otherFsFile", "otherFsSymlinkToSrc"} THEN 2 ELSE 1
 
 InitEnt(s) ==
   [n \in Names |->
-     IF n = "S" THEN (CASE s.src = "file" -> File(1) [] s.src = "dir" -> Dir [] OTHER -> None)
+     IF n = "S" THEN (CASE s.src = "file" -> File(1) [] s.src = "dir" -> Dir [] s.src = "linkToFile" -> Link("R") [] OTHER -> None)
+     ELSE IF n = "R" THEN (IF s.src = "linkToFile" THEN File(1) ELSE None)
      ELSE IF n = "D" THEN
         (CASE s.dst \in {"missing", "otherFsMissing", "same"} -> None
            [] s.dst \in {"file", "otherFsFile"} -> File(2)
@@ -50,14 +52,18 @@ InitEnt(s) ==
            [] s.dst = "dir" -> Dir
            [] s.dst \in {"parentMissing", "parentIsFile"} -> Unusable
            [] s.dst = "danglingSymlink" -> Link("T")
-           [] s.dst = "symlinkToOther" -> Link("T"))
+           [] s.dst = "symlinkToOther" -> Link("T")
+           [] s.dst = "symlinkToSrcTarget" -> Link("R")
+           [] OTHER -> None)
      ELSE (IF s.dst = "symlinkToOther" THEN File(2) ELSE None)]
-InitIno(s) == [i \in 1..3 |-> IF i = 1 /\ s.src = "file" THEN OrigSrc
+InitIno(s) == [i \in 1..3 |-> IF i = 1 /\ s.src \in {"file", "linkToFile"} THEN OrigSrc
                               ELSE IF i = 2 /\ s.dst \in {"file", "otherFsFile", "symlinkToOther"} THEN OrigDst ELSE "free"]
 
 Scenarios == {s \in [op : Ops, src : SrcKinds, dst : DstKinds] :
                  /\ ~(s.dst = "hardlinkToSrc" /\ s.src # "file")
-                 /\ ~(s.op = "move" /\ s.src = "dir")}      \* moving directories is outside the property
+                 /\ ~(s.op = "move" /\ s.src = "dir")       \* moving directories is outside the property
+                 /\ (s.dst \in {"srcTarget", "symlinkToSrcTarget"} <=> s.src = "linkToFile")
+                 /\ ~(s.op = "move" /\ s.src = "linkToFile")}  \* aliasing is stated for CopyFile only
 
 Init == /\ scen \in Scenarios
         /\ ent = InitEnt(scen) /\ ino = InitIno(scen)
@@ -124,8 +130,8 @@ Next == Open \/ Stat \/ Create \/ Copy \/ Rename \/ Remove
 Spec == Init /\ [][Next]_vars
 
 -----------------------------------------------------------------------------
-SrcWasFile == scen.src = "file"
-SrcIntact == ent["S"].t = "file" /\ ino[ent["S"].i] = OrigSrc
+SrcWasFile == scen.src \in {"file", "linkToFile"}
+SrcIntact == Target("S").t = "file" /\ ino[Target("S").i] = OrigSrc
 DstHasOriginal == Target(Dst).t = "file" /\ ino[Target(Dst).i] = OrigSrc
 ContentPreserved ==
   pc = "done" =>
